@@ -16,7 +16,7 @@ def prod : List Nat → Nat
 structure Tensor (α : Type) where
   dims : List Nat
   data : List α
-deriving Repr
+deriving Repr, DecidableEq
 
 /-- Outcome of a public call: a result, a returned `error`, or a Go panic. -/
 inductive Out (β : Type) where
